@@ -447,14 +447,17 @@ def cAdd (ls : Nat) (cap : Option Nat) (s : CState) (i : Nat) (a : Acc) (le : LE
            else { s with pinned := if s.pinned.contains k then s.pinned else k :: s.pinned }
   { s with objs := ainsert s.objs k a.wb, occ := s.occ + ls }
 
-/-- one iteration of the main loop with the cache callbacks -/
-def cstep (ls : Nat) (cap : Option Nat) (s : CState) (x : Nat × Acc) : CState :=
-  if s.failed.isSome then s else
+/-- `if new_traffic and not is_write: traffic[tensor]["read"] += line_sz` -/
+def cCharge (ls : Nat) (s : CState) (x : Nat × Acc) : CState :=
+  if (alookup s.objs (x.1, x.2.point)).isNone && !x.2.isWrite then
+    { s with reads := addAt s.reads x.1 ls } else s
+
+/-- the rest of one iteration of the main loop with the cache callbacks -/
+def cCore (ls : Nat) (cap : Option Nat) (s : CState) (x : Nat × Acc) : CState :=
   let i := x.1
   let a := x.2
   let k : CKey := (i, a.point)
   let newT := (alookup s.objs k).isNone
-  let s := if newT && !a.isWrite then { s with reads := addAt s.reads i ls } else s
   match a.next with
   | none =>
     -- "Do not buffer if never used again"
@@ -506,6 +509,10 @@ def cstep (ls : Nat) (cap : Option Nat) (s : CState) (x : Nat × Acc) : CState :
       if toBuf then cAdd ls cap s i a le
       else if a.wb then { s with writes := addAt s.writes i ls } else s
 
+/-- one iteration of the main loop with the cache callbacks (a raised exception ends the run) -/
+def cstep (ls : Nat) (cap : Option Nat) (s : CState) (x : Nat × Acc) : CState :=
+  if s.failed.isSome then s else cCore ls cap (cCharge ls s x) x
+
 def cacheRun (L ls : Nat) (cap : Option Nat) (traces : List (List Acc)) : CState :=
   (schedule L traces).foldl (cstep ls cap) {}
 
@@ -553,19 +560,23 @@ def refEvictLoop (ls : Nat) (cap : Option Nat) : Nat → RState → RState
           { s with writes := if e.dirty then addAt s.writes e.key.1 ls else s.writes
                    res := s.res.filter (fun x => x.key ≠ e.key) }
 
-def refStep (ls : Nat) (cap : Option Nat) (s : RState) (x : Nat × Acc) (rest : List (Nat × Acc)) : RState :=
+/-- a miss that is a read is a fill -/
+def rCharge (ls : Nat) (s : RState) (x : Nat × Acc) : RState :=
+  if (s.res.find? (fun e => e.key = (x.1, x.2.point))).isNone && !x.2.isWrite then
+    { s with reads := addAt s.reads x.1 ls } else s
+
+def rCore (ls : Nat) (cap : Option Nat) (s : RState) (x : Nat × Acc) (rest : List (Nat × Acc)) : RState :=
   let i := x.1
   let a := x.2
   let k : CKey := (i, a.point)
   let hit := s.res.find? (fun e => e.key = k)
-  let s := if hit.isNone && !a.isWrite then { s with reads := addAt s.reads i ls } else s
   match nextAfter k rest, hit with
   | none, none => if a.wb then { s with writes := addAt s.writes i ls } else s
   | none, some e =>
     { s with writes := if e.dirty || a.wb then addAt s.writes i ls else s.writes
              res := s.res.filter (fun x => x.key ≠ k) }
-  | some n, some _ =>
-    { s with res := s.res.map (fun x => if x.key = k then { x with nextIdx := n, dirty := x.dirty || a.wb } else x) }
+  | some n, some e =>
+    { s with res := ⟨k, e.dirty || a.wb, n, e.pinned⟩ :: s.res.filter (fun x => x.key ≠ k) }
   | some n, none =>
     let fits := capFits cap (ls * (s.res.length + 1))
     let worth := match furthest s.res with
@@ -576,12 +587,33 @@ def refStep (ls : Nat) (cap : Option Nat) (s : RState) (x : Nat × Acc) (rest : 
       { s with res := ⟨k, a.wb, n, a.staging⟩ :: s.res }
     else if a.wb then { s with writes := addAt s.writes i ls } else s
 
+def refStep (ls : Nat) (cap : Option Nat) (s : RState) (x : Nat × Acc) (rest : List (Nat × Acc)) : RState :=
+  rCore ls cap (rCharge ls s x) x rest
+
 def refCache (ls : Nat) (cap : Option Nat) : RState → List (Nat × Acc) → RState
   | s, [] => s
   | s, x :: rest => refCache ls cap (refStep ls cap s x rest) rest
 
-/-- no two different lines of one binding are accessed at the same stamp, and the schedule
-    is ordered by (stamp, binding) the way `ListElem` compares them -/
+/-- hypotheses of the equivalence theorem, executable on a consumption sequence: (1) every `next` is
+    the stamp of the next access of the same binding to the same line -/
+def schedNextOkB : List (Nat × Acc) → Bool
+  | [] => true
+  | x :: rest =>
+    decide (x.2.next = (rest.find? (fun y => decide ((y.1, y.2.point) = (x.1, x.2.point)))).map (·.2.stamp))
+      && schedNextOkB rest
+
+/-- (2) the sequence is ordered the way `ListElem` compares (next-access stamp, then binding position)
+    and accesses that compare equal touch the same line -/
+def schedOrdB : List (Nat × Acc) → Bool
+  | [] => true
+  | x :: rest =>
+    rest.all (fun y =>
+        !(LElem.lt ⟨y.2.stamp, y.2.point, y.1⟩ ⟨x.2.stamp, x.2.point, x.1⟩) &&
+        (!(decide (y.2.stamp = x.2.stamp) && decide (y.1 = x.1))
+          || decide ((y.1, y.2.point) = (x.1, x.2.point))))
+      && schedOrdB rest
+
+/-- no two different lines of one binding are accessed at the same stamp -/
 def tieFreeB : List (Nat × Acc) → Bool
   | [] => true
   | x :: rest =>
